@@ -161,12 +161,13 @@ def gen_kw(rng):
 
 
 def gen_cases(rng, tier):
-    n = 150 if tier == "quick" else 1800
+    n = 130 if tier == "quick" else 1800
     out = []
     for i in range(n):
         g = DGen(rng, p_alias=rng.choice([0.3, 0.5]), p_subq=rng.choice([0.3, 0.45, 0.6]),
                  max_depth=rng.choice([1, 2, 2, 3] if tier == "quick" else [2, 3, 3]),
                  hostile=0.15, inner_same_cls=rng.choice([0.0, 0.3, 0.6]))
+        g.p_csub = rng.choice([0.0, 0.15, 0.3])     # sub-queries inside HAVING / GROUP BY / ORDER BY / SET values
         spec = g.any()
         out.append({"spec": spec, "relabel": None, "kw": None})
         out.append({"spec": spec, "relabel": rng.choice(CLS_NAMES), "kw": None})
@@ -238,6 +239,184 @@ def witnesses():
 W_KW = {"w_fn_literal": {"q": "`", "rest": ['"', None, False]}}
 
 
+def witness_pool():
+    """deterministic (name -> case) pool: every deviation template x outer class x inner class.  corpus() uses the members
+    listed in WITNESS_KEYS (a cover of the open findings computed by --write-findings)."""
+    one = ["t", ["vali", 1, None]]
+    pool = {}
+
+    def put(name, spec, kw=None):
+        pool[name] = {"spec": spec, "relabel": None, "kw": kw, "name": name}
+    inner_q = lambda i, **kw: _sel(i, "u", [["t", _F("b", "bb")]], **kw)   # noqa: E731
+    f0 = ["field", "a", ["#0", [], None], None]
+    f1 = ["field", "b", ["#1", [], None], None]
+    for o in CLS_NAMES:
+        put("cte:%s" % o, {"k": "sel", "cls": o, "with": [["cte", _sel(o, "u", [["t", _F("b")]])]], "from": [["a", "cte"]], "joins": [],
+                           "selects": [["t", ["star", None]]]})
+        put("crit:%s" % o, _sel(o, "t", [["t", ["basic", "eq", _F("a"), _F("b"), "crit"]]]))
+        put("crit-fnterm:%s" % o, _sel(o, "t", [["t", ["func", "F", [["basic", "eq", _F("a"), _F("b"), "crit"]], None]]]))
+        put("qual:%s" % o, {"k": "sel", "cls": o, "from": [["t", _T("t", "ta")]], "joins": [], "selects": [["t", f0]]})
+        put("setop-alias:%s" % o, {"k": "sel", "cls": o, "from": [["q", {"k": "set", "base": _sel(o, "t", [["t", _F("a")]]),
+                                                                           "ops": [["union", _sel(o, "u", [["t", _F("a")]])]], "alias": "su"}]],
+                                   "joins": [], "selects": [["t", f0]]})
+        put("fnterm:%s" % o, _sel(o, "t", [["t", ["func", "COALESCE", [["vals", "x", "y"], ["vali", 1, None]], None]], ["t", ["vals", "x", "y"]]]))
+        put("setop-order:%s" % o, {"k": "set", "base": _sel(o, "t", [["t", _F("a", "x")]]), "ops": [["union", _sel(o, "u", [["t", _F("b", "x")]])]],
+                                   "orderby": [[_F("a", "x"), None]]})
+        for i in CLS_NAMES:
+            put("fn:%s:%s" % (o, i), _sel(o, "t", [["func", "COALESCE", [["sub", inner_q(i)], one], None]]))
+            put("fn-gb:%s:%s" % (o, i), _sel(o, "t", [["func", "COALESCE", [["sub", inner_q(i, groupby=[["t", _F("b", "bb")]])], one], None]]))
+            put("fn-crit:%s:%s" % (o, i), _sel(o, "t", [["func", "F", [["sub", _sel(i, "u", [["t", ["basic", "eq", _F("a"), _F("b"), "crit"]]])]], None]]))
+            gsub = inner_q(i, groupby=[["t", _F("b", "bb")]])
+            put("gb-from:%s:%s" % (o, i), {"k": "sel", "cls": o, "from": [["q", gsub]], "joins": [], "selects": [["t", ["star", None]]]})
+            put("gb-join:%s:%s" % (o, i), {"k": "sel", "cls": o, "from": [["t", _T("t")]],
+                                          "joins": [["inner", ["q", gsub], ["on", ["t", ["basic", "eq", f0, f1, None]]]]], "selects": [["t", f0]]})
+            put("gb-in:%s:%s" % (o, i), _sel(o, "t", [["t", _F("a")]], where=["in", _F("a"), gsub, False]))
+            put("gb-gb:%s:%s" % (o, i), _sel(o, "t", [["t", _F("a")]], groupby=[["sub", gsub]]))
+            put("gb-set:%s:%s" % (o, i), {"k": "set", "base": _sel(o, "t", [["t", _F("a", "x")]], groupby=[["t", _F("a", "x")]]),
+                                         "ops": [["union", gsub]]})
+            put("set:%s:%s" % (o, i), {"k": "set", "base": _sel(o, "t", [["t", _F("a", "x")]]), "ops": [["union", _sel(i, "u", [["t", _F("b", "y")]])]]})
+            sub = _sel(i, "u", [["t", _F("b")]], alias="s")
+            put("qa-from:%s:%s" % (o, i), {"k": "sel", "cls": o, "from": [["q", sub]], "joins": [], "selects": [["t", ["star", None]]]})
+            put("qa-join:%s:%s" % (o, i), {"k": "sel", "cls": o, "from": [["t", _T("t")]],
+                                          "joins": [["left", ["q", sub], ["on", ["t", ["basic", "eq", f0, f1, None]]]]], "selects": [["t", f0]]})
+            put("qa-sel:%s:%s" % (o, i), _sel(o, "t", [["sub", sub]]))
+            put("qa-fn:%s:%s" % (o, i), _sel(o, "t", [["func", "F", [["sub", {"k": "sel", "cls": o, "from": [["q", sub]], "joins": [],
+                                                                            "selects": [["t", ["star", None]]]}]], None]]))
+            put("qa-set:%s:%s" % (o, i), {"k": "set", "base": {"k": "sel", "cls": o, "from": [["q", sub]], "joins": [], "selects": [["t", ["star", None]]]},
+                                         "ops": [["union", _sel(o, "v", [["t", _F("c")]])]]})
+    kw = {"q": "`", "rest": ['"', '"', True]}
+    put("kw-fn", _sel("Query", "t", [["func", "COALESCE", [["sub", _sel("Query", "u", [["t", _F("b", "bb")]],
+                                                                         where=["t", ["basic", "eq", _F("c"), ["vals", "s", None], None]])], one], None]]), kw)
+    put("kw-fnterm", _sel("Query", "t", [["t", ["func", "COALESCE", [["vals", "x", "y"], ["vali", 1, None]], None]]]), kw)
+    put("kw-cte", pool["cte:Query"]["spec"], kw)
+    put("kw-crit", pool["crit:Query"]["spec"], {"q": "`", "rest": ["'", None, False]})
+    put("kw-qual", pool["qual:Query"]["spec"], kw)
+    put("kw-setop-alias", pool["setop-alias:Query"]["spec"], kw)
+    put("kw-setop-order", pool["setop-order:Query"]["spec"], kw)
+    return pool
+
+
+# members of witness_pool() that together reproduce every open finding (written by --write-findings)
+WITNESS_KEYS = [
+    'fn-gb:OracleQuery:PostgreSQLQuery',
+    'kw-fn',
+    'fn-crit:PostgreSQLQuery:ClickHouseQuery',
+    'fn-crit:SnowflakeQuery:ClickHouseQuery',
+    'fn-gb:MSSQLQuery:ClickHouseQuery',
+    'fn-gb:MySQLQuery:PostgreSQLQuery',
+    'fn-gb:OracleQuery:ClickHouseQuery',
+    'fn-gb:OracleQuery:SnowflakeQuery',
+    'gb-set:MSSQLQuery:ClickHouseQuery',
+    'gb-set:OracleQuery:ClickHouseQuery',
+    'gb-set:OracleQuery:PostgreSQLQuery',
+    'gb-set:OracleQuery:SnowflakeQuery',
+    'gb-set:SnowflakeQuery:ClickHouseQuery',
+    'kw-fnterm',
+    'fn-crit:ClickHouseQuery:MSSQLQuery',
+    'fn-crit:ClickHouseQuery:MySQLQuery',
+    'fn-crit:ClickHouseQuery:OracleQuery',
+    'fn-crit:ClickHouseQuery:PostgreSQLQuery',
+    'fn-crit:ClickHouseQuery:Query',
+    'fn-crit:ClickHouseQuery:RedshiftQuery',
+    'fn-crit:ClickHouseQuery:SQLLiteQuery',
+    'fn-crit:ClickHouseQuery:SnowflakeQuery',
+    'fn-crit:ClickHouseQuery:VerticaQuery',
+    'fn-crit:MySQLQuery:ClickHouseQuery',
+    'fn-crit:OracleQuery:PostgreSQLQuery',
+    'fn-crit:RedshiftQuery:ClickHouseQuery',
+    'fn-crit:SQLLiteQuery:ClickHouseQuery',
+    'fn-crit:VerticaQuery:ClickHouseQuery',
+    'fn-gb:MSSQLQuery:MySQLQuery',
+    'fn-gb:MSSQLQuery:PostgreSQLQuery',
+    'fn-gb:MSSQLQuery:Query',
+    'fn-gb:MSSQLQuery:RedshiftQuery',
+    'fn-gb:MSSQLQuery:SQLLiteQuery',
+    'fn-gb:MSSQLQuery:SnowflakeQuery',
+    'fn-gb:MSSQLQuery:VerticaQuery',
+    'fn-gb:MySQLQuery:SnowflakeQuery',
+    'fn-gb:OracleQuery:MySQLQuery',
+    'fn-gb:OracleQuery:RedshiftQuery',
+    'fn-gb:OracleQuery:SQLLiteQuery',
+    'fn-gb:OracleQuery:VerticaQuery',
+    'fn-gb:SnowflakeQuery:ClickHouseQuery',
+    'fn-gb:SnowflakeQuery:MSSQLQuery',
+    'fn-gb:SnowflakeQuery:MySQLQuery',
+    'fn-gb:SnowflakeQuery:OracleQuery',
+    'fn-gb:SnowflakeQuery:RedshiftQuery',
+    'fn-gb:SnowflakeQuery:SQLLiteQuery',
+    'fn-gb:SnowflakeQuery:VerticaQuery',
+    'gb-gb:MSSQLQuery:ClickHouseQuery',
+    'gb-gb:MSSQLQuery:MySQLQuery',
+    'gb-gb:MSSQLQuery:PostgreSQLQuery',
+    'gb-gb:MSSQLQuery:Query',
+    'gb-gb:MSSQLQuery:RedshiftQuery',
+    'gb-gb:MSSQLQuery:SQLLiteQuery',
+    'gb-gb:MSSQLQuery:SnowflakeQuery',
+    'gb-gb:MSSQLQuery:VerticaQuery',
+    'gb-gb:OracleQuery:ClickHouseQuery',
+    'gb-gb:OracleQuery:MySQLQuery',
+    'gb-gb:OracleQuery:PostgreSQLQuery',
+    'gb-gb:OracleQuery:Query',
+    'gb-gb:OracleQuery:RedshiftQuery',
+    'gb-gb:OracleQuery:SQLLiteQuery',
+    'gb-gb:OracleQuery:SnowflakeQuery',
+    'gb-gb:OracleQuery:VerticaQuery',
+    'gb-set:ClickHouseQuery:MSSQLQuery',
+    'gb-set:ClickHouseQuery:MySQLQuery',
+    'gb-set:ClickHouseQuery:OracleQuery',
+    'gb-set:ClickHouseQuery:PostgreSQLQuery',
+    'gb-set:ClickHouseQuery:Query',
+    'gb-set:ClickHouseQuery:RedshiftQuery',
+    'gb-set:ClickHouseQuery:SQLLiteQuery',
+    'gb-set:ClickHouseQuery:SnowflakeQuery',
+    'gb-set:ClickHouseQuery:VerticaQuery',
+    'gb-set:MSSQLQuery:MySQLQuery',
+    'gb-set:MSSQLQuery:PostgreSQLQuery',
+    'gb-set:MSSQLQuery:Query',
+    'gb-set:MSSQLQuery:RedshiftQuery',
+    'gb-set:MSSQLQuery:SQLLiteQuery',
+    'gb-set:MSSQLQuery:SnowflakeQuery',
+    'gb-set:MSSQLQuery:VerticaQuery',
+    'gb-set:MySQLQuery:ClickHouseQuery',
+    'gb-set:MySQLQuery:SnowflakeQuery',
+    'gb-set:OracleQuery:MySQLQuery',
+    'gb-set:OracleQuery:Query',
+    'gb-set:OracleQuery:RedshiftQuery',
+    'gb-set:OracleQuery:SQLLiteQuery',
+    'gb-set:OracleQuery:VerticaQuery',
+    'gb-set:PostgreSQLQuery:ClickHouseQuery',
+    'gb-set:Query:ClickHouseQuery',
+    'gb-set:RedshiftQuery:ClickHouseQuery',
+    'gb-set:SQLLiteQuery:ClickHouseQuery',
+    'gb-set:SnowflakeQuery:MSSQLQuery',
+    'gb-set:SnowflakeQuery:MySQLQuery',
+    'gb-set:SnowflakeQuery:OracleQuery',
+    'gb-set:SnowflakeQuery:Query',
+    'gb-set:SnowflakeQuery:RedshiftQuery',
+    'gb-set:SnowflakeQuery:SQLLiteQuery',
+    'gb-set:SnowflakeQuery:VerticaQuery',
+    'gb-set:VerticaQuery:ClickHouseQuery',
+    'kw-crit',
+    'kw-cte',
+    'kw-qual',
+    'kw-setop-order',
+    'qa-fn:MySQLQuery:PostgreSQLQuery',
+    'qa-fn:OracleQuery:PostgreSQLQuery',
+    'qa-fn:SnowflakeQuery:PostgreSQLQuery',
+    'qa-from:OracleQuery:PostgreSQLQuery',
+    'qa-from:SnowflakeQuery:PostgreSQLQuery',
+    'qa-join:MySQLQuery:PostgreSQLQuery',
+    'qa-join:OracleQuery:PostgreSQLQuery',
+    'qa-join:SnowflakeQuery:PostgreSQLQuery',
+    'qa-sel:MySQLQuery:PostgreSQLQuery',
+    'qa-sel:OracleQuery:PostgreSQLQuery',
+    'qa-sel:SnowflakeQuery:PostgreSQLQuery',
+    'qa-set:MySQLQuery:PostgreSQLQuery',
+    'qa-set:OracleQuery:PostgreSQLQuery',
+    'qa-set:SnowflakeQuery:PostgreSQLQuery',
+]
+
+
 def corpus():
     out = []
     for name, spec in witnesses().items():
@@ -247,6 +426,13 @@ def corpus():
     for name in ("w_fn_alias", "w_qalias", "w_setop_mixed", "p_nested"):
         for c in ("Query", "MySQLQuery", "PostgreSQLQuery", "SnowflakeQuery", "ClickHouseQuery", "OracleQuery"):
             out.append({"spec": W[name], "relabel": c, "kw": None, "name": name + "@" + c})
+    pool = witness_pool()
+    out += [pool[k] for k in WITNESS_KEYS]
+    # GROUP BY alias use must follow the OUTER class (Oracle / MSSQL group by expressions) in every inherited position
+    for o in ("OracleQuery", "MSSQLQuery"):
+        for i in ("Query", "MySQLQuery", "PostgreSQLQuery"):
+            for t_ in ("gb-from", "gb-join", "gb-in"):
+                out.append(pool["%s:%s:%s" % (t_, o, i)])
     out += vendor_cases()
     return out
 
@@ -310,7 +496,7 @@ class Sentinels:
         self.n = 0
         self.meta = {}
 
-    def new(self, prefix, path, cls, fn, gov=None):
+    def new(self, prefix, path, cls, fn, gov=None, own=None):
         """[cls]: the class whose defaults govern this position (see [decisive]); for a sub-query alias the class of
         that sub-query, and [gov] the governing class (its AS keyword follows that one)"""
         self.n += 1
@@ -319,13 +505,15 @@ class Sentinels:
             kind = "funcarg-term"
         elif "funcarg" in path:
             kind = "funcarg"
+        elif "groupby" in path:
+            kind = "groupby"
         elif path and path[0] == "setop":
             kind = "setop-top"
         elif not path:
             kind = "top"
         else:
             kind = path[-1]
-        self.meta[name] = (ROLE_OF[prefix], kind, cls, gov or cls)
+        self.meta[name] = (ROLE_OF[prefix], kind, cls, gov or cls, own or cls)
         return name
 
     @staticmethod
@@ -351,7 +539,7 @@ class Sentinels:
             return None
         key = (prefix, a)
         if key not in st["amap"]:
-            st["amap"][key] = self.new(prefix, st["path"], st["dec"], st["fn"])
+            st["amap"][key] = self.new(prefix, st["path"], st["dec"], st["fn"], own=st["cls"])
         return st["amap"][key]
 
     def term(self, t, st):
@@ -406,14 +594,18 @@ class Sentinels:
         if k == "t":
             return ["t", self.term(it[1], st)]
         ab = st.get("abs", False)
+        gb = st.get("gb", False)      # inside a GROUP BY item: _group_sql consumes groupby_alias
+
+        def edge(name):
+            return [] if ab else (["groupby"] if gb else [name])
         if k == "sub":
-            return ["sub", self.query(it[1], st["path"] + ([] if ab else ["select-sub"]), st, ab)]
+            return ["sub", self.query(it[1], st["path"] + edge("select-sub"), st, ab)]
         if k == "in":
-            return ["in", self.term(it[1], st), self.query(it[2], st["path"] + ([] if ab else ["in"]), st, ab), it[3]]
+            return ["in", self.term(it[1], st), self.query(it[2], st["path"] + edge("in"), st, ab), it[3]]
         if k == "exists":
-            return ["exists", self.query(it[1], st["path"] + ([] if ab else ["exists"]), st, ab), it[2]]
+            return ["exists", self.query(it[1], st["path"] + edge("exists"), st, ab), it[2]]
         if k == "cmp":
-            return ["cmp", it[1], self.term(it[2], st), self.query(it[3], st["path"] + ([] if ab else ["cmp"]), st, ab)]
+            return ["cmp", it[1], self.term(it[2], st), self.query(it[3], st["path"] + edge("cmp"), st, ab)]
         if k == "func":
             fnst = dict(st, fn=("term" if st["fn"] is None else st["fn"]))
             args = []
@@ -479,7 +671,7 @@ class Sentinels:
                 if s.get(key) is not None:
                     out[key] = self.item(s[key], st)
             if s.get("groupby"):
-                out["groupby"] = [self._ref_item(g, s, out, st) for g in s["groupby"]]
+                out["groupby"] = [self._ref_item(g, s, out, dict(st, gb=True)) for g in s["groupby"]]
             if s.get("orderby"):
                 out["orderby"] = [[self._ref_item(i, s, out, st), d] for i, d in s["orderby"]]
             for key in ("distinct", "limit", "offset", "for_update"):
@@ -538,7 +730,11 @@ def sentinelize(spec):
 def class_conv(cls_name):
     b = qclass(cls_name)._builder()
     qa = b.ALIAS_QUOTE_CHAR if b.QUERY_ALIAS_QUOTE_CHAR is None else b.QUERY_ALIAS_QUOTE_CHAR
-    return {"q": b.QUOTE_CHAR, "sq": b.SECONDARY_QUOTE_CHAR, "aq": b.ALIAS_QUOTE_CHAR, "qa": qa, "as": bool(b.as_keyword)}
+    from pypika import Table, Field
+    f = Field("a", table=Table("t")).as_("al")
+    txt = str(qclass(cls_name).from_(Table("t")).select(f).groupby(f))
+    gba = txt.rstrip('"`').endswith("al")            # does this class refer to a selected alias in GROUP BY?
+    return {"q": b.QUOTE_CHAR, "sq": b.SECONDARY_QUOTE_CHAR, "aq": b.ALIAS_QUOTE_CHAR, "qa": qa, "as": bool(b.as_keyword), "gba": gba}
 
 
 def kw_conv(cls_name, kw):
@@ -567,6 +763,30 @@ def sentinel_report(text, meta, conv, outer, check_qalias=True, collapse=False):
     """every occurrence of every sentinel must carry the outer convention's quote for its role"""
     toks = lex(text)
     out = []
+    # token positions inside GROUP BY segments
+    in_group, depth, i = set(), 0, 0
+    while i < len(toks):
+        k_, v_, _ = toks[i]
+        if k_ == "punct" and v_ == "(":
+            depth += 1
+        elif k_ == "punct" and v_ == ")":
+            depth -= 1
+        elif k_ == "word" and v_.upper() == "GROUP" and i + 1 < len(toks) and toks[i + 1][1].upper() == "BY":
+            d0, dd, j = depth, depth, i + 2
+            while j < len(toks):
+                kk, vv, _ = toks[j]
+                if kk == "punct" and vv == "(":
+                    dd += 1
+                elif kk == "punct" and vv == ")":
+                    if dd == d0:
+                        break
+                    dd -= 1
+                elif dd == d0 and kk == "word" and vv.upper() in GROUP_END:
+                    break
+                if dd == d0:
+                    in_group.add(j)
+                j += 1
+        i += 1
 
     def sig(inner, pk, role):
         if collapse:
@@ -579,11 +799,15 @@ def sentinel_report(text, meta, conv, outer, check_qalias=True, collapse=False):
     for i, (kind, val, quote) in enumerate(toks):
         if kind not in ("q", "word") or val not in meta:
             continue
-        role, pk, inner, gov = meta[val]
+        role, pk, inner, gov, own = meta[val]
         nxt = toks[i + 1] if i + 1 < len(toks) else None
         prv = toks[i - 1] if i > 0 else None
         qualifier = nxt is not None and nxt[0] == "punct" and nxt[1] == "."
         reference = prv is not None and ((prv[0] == "word" and prv[1].upper() == "BY") or (prv[0] == "punct" and prv[1] in ",("))
+        if role == "alias" and reference and not qualifier and i in in_group and conv.get("gba") is False and not collapse:
+            out.append({"signature": ["C07", outer, own, pk, "groupby-alias"],
+                        "what": "GROUP BY refers to the selected alias %s although the outer class %s groups by expressions "
+                                "(groupby_alias=False is not in force here); statement: %s" % (val, outer, text[:400])})
         if role == "alias" and qualifier:
             role = "alias-qualifier"
         elif role == "alias" and reference:
@@ -739,7 +963,7 @@ def run_vendor(case):
     meta = {}
 
     def reg(name, role, kind="top", inner=None):
-        meta[name] = (role, kind, inner or case["cls"], inner or case["cls"])
+        meta[name] = (role, kind, inner or case["cls"], inner or case["cls"], inner or case["cls"])
         return name
     t = Table(reg("zt1", "ident"))
     if v == "forms":
@@ -912,7 +1136,7 @@ def oracle(case, outcome):
     for c, txt in per.items():
         if txt.startswith("!"):
             continue
-        cmeta = {k: (r, pk, c, c) for k, (r, pk, _, _) in meta.items()}
+        cmeta = {k: (r, pk, c, c, c) for k, (r, pk, _, _, _) in meta.items()}
         out += sentinel_report(txt, cmeta, class_conv(c), c)
         if ref is not None and not ref.startswith("!") and c != "Query":
             d = first_diff(devendor(txt, kind), devendor(ref, kind))
@@ -1058,6 +1282,16 @@ def predicted_findings():
                         "the alias of a %s sub-query (%s position) inside a %s statement is quoted with the SUB-query class's "
                         "ALIAS_QUOTE_CHAR / QUERY_ALIAS_QUOTE_CHAR (QueryBuilder.get_sql overwrites alias_quote_char with its own constants)"
                         % (i, kind, o), w_qa)
+    for o in CLS_NAMES:
+        for i in CLS_NAMES:
+            if conv[o]["gba"] is False and conv[i]["gba"]:
+                for kind, where in (("funcarg", "inside a function argument"), ("setop-top", "that is an operand of a top-level set operation"),
+                                    ("groupby", "inside a GROUP BY item (_group_sql consumes groupby_alias as a named parameter)")):
+                    add(["C07", o, i, kind, "groupby-alias"],
+                        "a %s (sub-)query %s of a %s statement groups by a selected alias: groupby_alias=False of the outer class is not "
+                        "forwarded there" % (i, where, o),
+                        "OracleQuery.from_(t).select(Coalesce(Query.from_(u).select(u.b.as_('bb')).groupby(u.b.as_('bb')), 1)) -> "
+                        "SELECT COALESCE((SELECT b bb FROM u GROUP BY bb),1) FROM t")
     for o in CLS_NAMES + ["explicit-kwargs"]:
         c = conv.get(o)
         if c is None or c["q"]:
@@ -1072,10 +1306,11 @@ def predicted_findings():
             add(["C07", o, "-", "any", "alias-qualifier"],
                 "a table alias is introduced with alias_quote_char but used as a column qualifier with quote_char",
                 "SnowflakeQuery.from_(Table('t').as_('ta')).select(ta.a) -> SELECT ta.a FROM t \"ta\"")
-            add(["C07", o, "-", "any", "setop-alias"],
-                "the alias of a set operation used as a source is quoted by alias_quote_char (a _SetOperation has no QUERY_ALIAS_QUOTE_CHAR) "
-                "while references to it are written with quote_char",
-                "SnowflakeQuery.from_(q1.union(q2).as_('su')).select(...) -> ... FROM ((SELECT ..) UNION (SELECT ..)) \"su\" with columns su.x")
+            if c is not None:      # with explicit kwargs the query-alias roles are not judged
+              add(["C07", o, "-", "any", "setop-alias"],
+                  "the alias of a set operation used as a source is quoted by alias_quote_char (a _SetOperation has no QUERY_ALIAS_QUOTE_CHAR) "
+                  "while references to it are written with quote_char",
+                  "SnowflakeQuery.from_(q1.union(q2).as_('su')).select(...) -> ... FROM ((SELECT ..) UNION (SELECT ..)) \"su\" with columns su.x")
             add(["C07", o, "-", "funcarg-term", "alias"],
                 "an aliased literal / term inside a function call gets quote_char instead of alias_quote_char (Function.get_sql re-packs only "
                 "quote_char / dialect / with_namespace)",
@@ -1128,11 +1363,53 @@ def predicted_findings():
     return out
 
 
+def corpus_signatures(cases):
+    obs = {}
+    for c in cases:
+        o = run_impl(c)
+        for v in oracle(c, o):
+            obs.setdefault(json.dumps(v["signature"]), []).append(c.get("name") or ("vendor:%s:%s" % (c.get("vendor"), c.get("cls"))))
+    return obs
+
+
 if __name__ == "__main__":
     import sys
     if "--write-findings" in sys.argv:
         import os
-        path = os.path.join(os.path.dirname(os.path.dirname(os.path.dirname(os.path.abspath(__file__)))), "findings.d", "C07.json")
+        here = os.path.abspath(__file__)
+        predicted = {json.dumps(f["signature"]): f for f in predicted_findings()}
+        # 1. what the fixed part of the corpus (named witnesses, vendor cases) already reproduces
+        WITNESS_KEYS[:] = []
+        have = corpus_signatures(corpus())
+        # 2. greedy cover of the remaining predicted signatures by members of the pool
+        pool = witness_pool()
+        per = {k: set(corpus_signatures([c])) for k, c in pool.items()}
+        want = set(predicted) - set(have)
+        keys = []
+        while True:
+            best = max(sorted(per), key=lambda k: len(per[k] & want))
+            if not per[best] & want:
+                break
+            keys.append(best)
+            want -= per[best]
+        WITNESS_KEYS[:] = keys
+        obs = corpus_signatures(corpus())
+        unexpected = sorted(set(obs) - set(predicted))
+        out = []
+        for k, f in predicted.items():
+            if k in obs:
+                f = dict(f, id="C07-%03d" % (len(out) + 1), corpus_witness=obs[k][0])
+                out.append(f)
+        path = os.path.join(os.path.dirname(os.path.dirname(os.path.dirname(here))), "findings.d", "C07.json")
         with open(path, "w") as f:
-            json.dump(predicted_findings(), f, indent=1)
-        print("wrote", path, len(predicted_findings()))
+            json.dump(out, f, indent=1)
+        src = open(here).read()
+        a = src.index("WITNESS_KEYS = [")
+        b = src.index("]\n", a) + 2
+        body = "WITNESS_KEYS = [\n" + "".join("    %r,\n" % k for k in keys) + "]\n"
+        open(here, "w").write(src[:a] + body + src[b:])
+        print("wrote", path, len(out), "findings;", len(keys), "pool witnesses; predicted but not reproduced (dropped):", len(predicted) - len(out))
+        for k in sorted(set(predicted) - set(obs)):
+            print("  dropped", k)
+        for k in unexpected:
+            print("  UNEXPECTED (not predicted)", k, obs[k][:2])
